@@ -57,7 +57,7 @@ structure Cell where
   off : Nat
   topic : Topic
   pay : Pay
-  deriving Repr
+  deriving Repr, DecidableEq
 
 structure FileSt where
   /-- directory (instance root) the file lives in -/
